@@ -278,7 +278,7 @@ func (comp) Extra(prop string, tier string, seed int64, scratch string) *core.Ex
 	_ = logger.SetLogLevel("*:NONE")
 	start := time.Now()
 	rounds, scale, budget := 10, 1, 36*time.Second
-	if prop == "C17" || prop == "C06" {
+	if prop == "C17" || prop == "C06" || prop == "C16" {
 		rounds, budget = 12, 12*time.Second
 	}
 	c.watchdog = 25 * time.Second
@@ -317,6 +317,8 @@ func (comp) Extra(prop string, tier string, seed int64, scratch string) *core.Ex
 			steps = []func(*collector, int64, int){phaseAdapter}
 		case "C06": // pool limits after concurrent use: eviction keeps running
 			steps = []func(*collector, int64, int){phaseTxEvict, phaseTxLimits}
+		case "C16": // the storage unit after concurrent use: cache and persister agree at every quiescent instant
+			steps = []func(*collector, int64, int){phaseStorageUnit}
 		}
 		for _, f := range steps {
 			if c.aborted.Load() {
